@@ -450,15 +450,17 @@ def h_single(pre_dest: bool, dest_only: bool, cache_a: int, c_x: int, c_rc: int,
 def h_vec(nconf_a: int, pre_dest: bool, cache_a: int, cache_a1: int, c_x: int, c_rc: int, x1: int, x2: int, x3: int, sa: int, sa1: int, sb: int, neg_rc: bool) -> bool:
     """
     vectorised (per-conformer) job: item a with 1-2 conformers, each sub-job with its own cached output / outcome sequence; item b with one
+    (a pre-populated destination is covered by h_single: pre_dest is kept in the signature for replay files and fixed to False)
     pre: 1 <= nconf_a <= 2 and 0 <= cache_a < 3 and 0 <= cache_a1 < 3 and -1 <= c_rc <= 1 and 0 <= c_x <= 1 and 0 <= x1 <= 1 and 0 <= x2 <= 1 and 0 <= x3 <= 1
     pre: 0 <= sa < len(SEQS) and 0 <= sa1 < 4 and 0 <= sb < 2
     pre: SPLIT < 0 or (sa == S_A and sa1 == S_2)
     pre: CA < 0 or cache_a == CA
-    pre: not QUICK or (not pre_dest and nconf_a == 2 and cache_a < 2 and cache_a1 < 2 and sb == 0)
+    pre: not pre_dest
+    pre: not QUICK or (nconf_a == 2 and cache_a < 2 and cache_a1 < 2 and sb == 0)
     post: _
     """
-    xs = [x1, x2, x3][:NRUNS]
-    return scenario(True, pick(nconf_a - 1, 2) + 1, pre_dest, True, pick(cache_a, 3), c_x, c_rc, pick(cache_a1, 3), xs, [True] * NRUNS, SEQS[pick(sa, len(SEQS))], SEQS[pick(sa1, 4)], SEQS[pick(sb, 2)], neg_rc, False)
+    xs = [x1, x2, x3][:2]                      # vectorised histories: two runs in both tiers (three runs of the full product take hours)
+    return scenario(True, pick(nconf_a - 1, 2) + 1, pre_dest, True, pick(cache_a, 3), c_x, c_rc, pick(cache_a1, 3), xs, [True] * 2, SEQS[pick(sa, len(SEQS))], SEQS[pick(sa1, 4)], SEQS[pick(sb, 2)], neg_rc, False)
 
 
 # ------------------------------------------------------------------------------------------------------ the real hash separates different inputs
@@ -534,7 +536,7 @@ def run(rep, tier):
     q = tier == "quick"
     rep.models_validated += validate_models() + E.validate_storage_models()
     rep.bounds = {"items": "source {a, b}; destination optionally pre-populated with a and with a destination-only key",
-                  "runs": f"{2 if q else 3} consecutive jobmap calls, job argument of each run a symbolic int (equal or different between runs and to the cached output's)",
+                  "runs": f"{2 if q else 3} consecutive jobmap calls (vectorised jobs: 2), job argument of each run a symbolic int (equal or different between runs and to the cached output's)",
                   "cache": "sub-job a / a.0 (and a.1): none, present (symbolic argument = hash, symbolic exit code in [-1,1], with or without the return file), corrupt file",
                   "outcomes": "per sub-job a sequence over attempts from {ok, fail with symbolic non-zero code leaving a partial file, omit the return file, runner killed before writing}: " + repr([[OUTCOMES[o] for o in s] for s in SEQS]),
                   "hash": "the real JobInput.hash on pairs of inputs differing in exactly one of the six fields (menus of 2-5 values per field, other fields at every menu value) [selector-bound]",
